@@ -52,6 +52,7 @@ func TestVerif(t *testing.T) {
 	simkit.Main(t, propC08())
 	simkit.Main(t, propC19())
 	simkit.Main(t, propC06())
+	simkit.Main(t, propC04())
 }
 
 const (
